@@ -905,7 +905,11 @@ func (self *Pipestance) Lock() error {
 	} else if os.IsExist(err) {
 		return &PipestanceLockedError{self.node.top.GetPsid(), self.GetPath()}
 	} else {
+		// Any other error: this instance does not own the lock.  Going
+		// on (the write below is not exclusive) could take over a lock
+		// which another instance created in the meantime.
 		util.LogError(err, "runtime", "Error creating pipestance lock file.")
+		return err
 	}
 	util.RegisterSignalHandler(self)
 	if err := self.metadata.WriteTime(Lock); err != nil {
